@@ -2,7 +2,8 @@
 From Coq Require Import Permutation.
 From Coq Require Import Sorted.
 From ACV Require Import Base.Strs Model.Sched Model.SharedRef Proofs.SchedProofs Extracted.SharedFacts.
-From ACV Require Model.Interleave Proofs.InterleaveProofs Proofs.SchedInterleave.
+From ACV Require Model.Interleave Proofs.InterleaveProofs Proofs.SchedInterleave Model.Rendezvous Proofs.RendezvousProofs.
+From ACV Require Import Model.Pipeline.
 Local Open Scope list_scope.
 
 (* ties: the package-level variables are exactly the classified ones, the counter is bumped by one atomic
@@ -66,6 +67,26 @@ Theorem C10_private_cell : forall (s : I.schedule (nat * option nat)) w t v,
   I.program_of t s = [IP.own_write v; IP.own_read] -> snd (I.priv (I.run w s) t) = Some v.
 Proof. exact IP.private_cell_holds. Qed.
 
+(* how the runs put real calls into chosen schedules (harness/props/sched.go), on the channel model of Model/Rendezvous.v: a
+   listener that stops taking events after event w leaves a call  pre ; send w ; mid ; send x ; post  INSIDE the send of x -
+   all the work of pre and mid done, none of post - and one that takes nothing leaves it inside its first send *)
+Module R := Rendezvous.
+Module RP := RendezvousProofs.
+Theorem C10_parking_point : forall (E L : Type) (E_eqb : E -> E -> bool), (forall a b, E_eqb a b = true <-> a = b) ->
+  forall w x (pre mid post : list (R.pstep E L)) d t,
+  R.last_is E_eqb w t = false -> RP.not_sent E L E_eqb w pre -> R.sends mid = [] ->
+  R.run (R.stop_after E_eqb w) (pre ++ R.PSend w :: mid ++ R.PSend x :: post) d t
+  = {| R.todo := R.PSend x :: post; R.did := d ++ R.works pre ++ R.works mid; R.taken := t ++ R.sends pre ++ [w] |}.
+Proof. exact RP.parked_inside_the_next_send. Qed.
+Theorem C10_parking_before_the_first_event : forall (E L : Type) x (pre post : list (R.pstep E L)) d t, R.sends pre = [] ->
+  R.run R.take_none (pre ++ R.PSend x :: post) d t = {| R.todo := R.PSend x :: post; R.did := d ++ R.works pre; R.taken := t |}.
+Proof. exact RP.parked_inside_the_first_send. Qed.
+(* on the pipeline's own flow: stopping after "ProfileParsing done" leaves a validation before Rego generation, profile parsed *)
+Theorem C10_parked_before_generation :
+  R.run (R.stop_after ev_eqb (Done ProfileParsing)) RP.validate_flow [] []
+  = {| R.todo := skipn 3 RP.validate_flow; R.did := [ProfileParsing]; R.taken := [Start ProfileParsing; Done ProfileParsing] |}.
+Proof. exact RP.parked_before_generation. Qed.
+
 Print Assumptions C10_tie_globals.
 Print Assumptions C10_tie_counter.
 Print Assumptions C10_unique.
@@ -79,3 +100,6 @@ Print Assumptions C10_validation_noninterference.
 Print Assumptions C10_refuted_shared_cell.
 Print Assumptions C10_private_cell.
 Print Assumptions C10_models_agree.
+Print Assumptions C10_parking_point.
+Print Assumptions C10_parking_before_the_first_event.
+Print Assumptions C10_parked_before_generation.
